@@ -135,8 +135,10 @@ def _case_discipline(ctx, fi):
             if not isinstance(patv, str) or not any(ch.isalpha() and ch.islower() for ch in re.sub(r"\\.|\(\?P<[^>]*>", '', patv)):
                 continue
             flags = [a for a in c.args[3:]] + [k.value for k in c.keywords if k.arg == 'flags']
-            if any('I' in norm(x) for x in flags):
-                continue
+            if any('I' in norm(x) for x in flags) and dotted(c.func) in ('re.sub', 're.split'):
+                continue        # a case-insensitive rewrite is as good as lowering first
+            # (for fullmatch/match/search the captured groups are used as table
+            #  keys afterwards: IGNORECASE does not lower what is captured)
             subject = c.args[2] if dotted(c.func) == 're.sub' and len(c.args) > 2 else (c.args[1] if len(c.args) > 1 else None)
             if subject is None:
                 continue
@@ -374,6 +376,19 @@ def _perm(ctx, fi):
               and 'self.sort(key=key, reverse=reverse)' in t, 'PERM',
               'custom_sort dispatch: str -> _sort_custom, list -> each in order, callable -> list.sort')
     ps = ctx.repo.func('PLSSDesc.sort_tracts')
+    dcalls = [c for c in walk_local(ps.node) if isinstance(c, ast.Call) and (dotted(c.func) or '').endswith('custom_sort')]
+    if dcalls:
+        kwv = {k.arg: k.value for k in dcalls[0].keywords if k.arg}
+        keyv = kwv.get('key', dcalls[0].args[0] if dcalls[0].args else None)
+        if keyv is not None:
+            cfg_, rd_ = flow.analyse(ps.node)
+            defs_ = rd_.reaching(flow.stmt_node(cfg_, keyv), keyv.id) if isinstance(keyv, ast.Name) else set()
+            altered = isinstance(keyv, ast.Name) and any(d[0] != 'param' for d in defs_)
+            ctx.tri(isinstance(keyv, ast.Name) and keyv.id == 'key' and not altered, altered, 'PERM',
+                    'PLSSDesc.sort_tracts hands its key to TractList.custom_sort unchanged',
+                    detail_bad="sort_tracts rewrites the key before delegating: sort_tracts(k) and tracts.custom_sort(k) "
+                               "no longer apply the same passes (a dropped pass changes the order of ties)",
+                    key="PERM|PLSSDesc.sort_tracts|key-altered", where=common.loc(ps, dcalls[0]))
     t = ' '.join(norm(x) for x in walk_local(ps.node) if isinstance(x, ast.stmt))
     ctx.shape('self.tracts.custom_sort(key=key, reverse=reverse)' in t, 'PERM',
               'PLSSDesc.sort_tracts delegates to TractList.custom_sort')
